@@ -70,8 +70,8 @@ Definition sorted_by {A} (leb : A -> A -> bool) (l : list A) : Prop :=
    the ideal value itself (a profile centred at the flat level), r = 2 eps and
         spread^2 <= spread_K * eps^2. *)
 Definition noise_radius (eps flat v : Q) : Q := Qmax2 (2 * eps) (Qabs (flat - v)).
-Definition spread_K_radius : Q := 997.      (* 4 / ((6080/6561 - 4/5) / 2)^2 = 996.9, rounded up *)
-Definition spread_K : Q := 3988.            (* 997 * 2^2 *)
+Definition spread_K_radius : Q := 62.       (* two regimes: 59.5 and 61.2, see Proofs/ReferenceNoise.v *)
+Definition spread_K : Q := 248.             (* 62 * 2^2 *)
 (* the property's tolerance for "~": 0.15; reached by 2 eps at eps = 3/40 *)
 Definition tolerance : Q := 15 # 100.
 Definition tolerance_eps : Q := 3 # 40.
